@@ -404,8 +404,10 @@ func specChar(d []byte, c int) charSpec {
 	default:
 		w = utf8Len(d, i)
 		if w == 0 {
+			// one byte that is not valid UTF-8: Go's conversion
+			// (strconv.UnquoteChar) decodes it as U+FFFD
 			w = 1
-			s.noClaimValue = true
+			s.value = 0xFFFD
 		} else {
 			s.value = decodeUTF8(d, i, w)
 		}
